@@ -24,6 +24,16 @@ import (
 
 const modPath = "github.com/SebastienMelki/sebuf"
 
+// emittedImports: import paths printed by the Go generators (besides
+// buf.build/go/protovalidate, which is stubbed). A unit importing anything
+// else fails to type-check and is reported as UNRESOLVED.
+var emittedImports = []string{
+	"bytes", "context", "crypto/rand", "encoding/base64", "encoding/hex", "encoding/json", "errors", "fmt", "io", "math/rand",
+	"net/http", "net/url", "strconv", "strings", "sync", "time", "unicode/utf8",
+	"google.golang.org/protobuf/encoding/protojson", "google.golang.org/protobuf/proto", "google.golang.org/protobuf/reflect/protoreflect",
+	"google.golang.org/protobuf/types/known/timestamppb",
+}
+
 // Prog is the loaded repository.
 type Prog struct {
 	Root string
@@ -55,7 +65,11 @@ func LoadRepo(root string) (*Prog, error) {
 		Tests: false,
 		Env:   append(os.Environ(), "GOWORK=off", "GOFLAGS=-mod=mod", "GOPROXY=off", "GOSUMDB=off"),
 	}
-	pkgs, err := packages.Load(cfg, "./...")
+	// Besides the repository, load the packages the EMITTED code imports, in the
+	// same load, so that the reconstructed units type-check against the very same
+	// *types.Package instances (one identity for proto.Message etc.).
+	patterns := append([]string{"./..."}, emittedImports...)
+	pkgs, err := packages.Load(cfg, patterns...)
 	if err != nil {
 		return nil, fmt.Errorf("packages.Load: %w", err)
 	}
